@@ -4,6 +4,15 @@ import "time"
 
 // The registered harness runs per property.  Parameters are the stated bounds.
 var checks = map[string][]HarnessSpec{
+	"C05": {
+		{Name: "HarnessC05Node", Pkg: "leaf", Quick: map[string]int{"L": 2}, Thorough: map[string]int{"L": 3}},
+		{Name: "HarnessC05Predicate", Pkg: "leaf", Quick: map[string]int{"L": 2}, Thorough: map[string]int{"L": 3}, Note: "ids over all non-whitespace byte values"},
+		{Name: "HarnessC05Predicate", Pkg: "leaf", Quick: map[string]int{"L": 3, "ASCII": 1}, Thorough: map[string]int{"L": 4, "ASCII": 1}},
+		{Name: "HarnessC05Literal", Pkg: "leaf", Quick: map[string]int{"T": 2, "B": 2}, Thorough: map[string]int{"T": 3, "B": 3}},
+		{Name: "HarnessC05LongText", Pkg: "leaf", Quick: map[string]int{"T": 7}, Thorough: map[string]int{"T": 7}},
+		{Name: "HarnessC05Int64", Pkg: "leaf", Solver: "cvc5-int", TimeoutMS: 60000},
+		{Name: "HarnessC05Triple", Pkg: "leaf", Quick: map[string]int{"SI": 1, "PI": 1, "OT": 1}, Thorough: map[string]int{"SI": 2, "PI": 2, "OT": 2}},
+	},
 	"C16": {
 		{Name: "HarnessC16Structure", Pkg: "leaf", Quick: map[string]int{"N": 3, "ASCII": 1}, Thorough: map[string]int{"N": 4, "ASCII": 1}},
 		{Name: "HarnessC16Structure", Pkg: "leaf", Quick: map[string]int{"N": 2, "ASCII": 0}, Thorough: map[string]int{"N": 3, "ASCII": 0}, Note: "all 256 byte values"},
@@ -44,6 +53,7 @@ func assumptionsFor(prop string) []string {
 }
 
 var propAssumptions = map[string][]string{
+	"C05": {"node text in the documented domain (types without '<' '>' and whitespace; ids without '<' '>' and whitespace)", "predicate ids: any bytes except whitespace; anchors from a concrete pool of four instants (two zones, nanosecond precision), printed and parsed by the interpreted time package", "float64 literals from a concrete pool of 9 (incl. -0, +-Inf, NaN, subnormal, max): native formatting/parsing, not solver-decided", "int64: full 64-bit range, decimal printing modelled with witness digits, decided by cvc5 --solve-bv-as-int=sum", "triples: 7-bit bytes, small component lengths (params SI, PI, OT); regexp splitting interpreted from the Go regexp package source"},
 	"C16": {"inputs: all strings up to N bytes over 7-bit bytes, and over all 256 byte values up to a smaller N; channel capacities 0, 1, N+1", "whitespace property: both words are assumed to lex, on their own, to exactly one non-error token (the property speaks of whitespace between two tokens)", "printed forms: node types and ids in the documented domain (types without '<' '>'), predicate ids / text without '\"', anchors from a concrete pool of four instants", "unicode.IsLetter/IsDigit/IsSpace/ToLower on symbolic runes are summarised exactly (range tables computed from the same Go release)"},
 	"C06": {"SHA-1 truncated to a version-5 UUID is modelled as real SHA-1 on concrete input and as 16 uninterpreted byte functions per input length on symbolic input, with injectivity instantiated for every pair of applications on a path: no claim about SHA-1 collisions", "node text restricted to the documented domain (no whitespace, no <> in ids, type starts with / and does not end with /)", "temporal anchors: seconds from a concrete pool {0,1,1.6e9}, nanoseconds fully symbolic, three zones; float64 values from a concrete pool of 9 (compared by bit pattern)", "sync.Pool.Get may return a previously Put (dirty) buffer in HarnessC06LiteralDefined"},
 	"C15": {"time.Parse/Format are interpreted from the Go standard library source on the anchor text; re-print obligations are asserted for immutable predicates only", "float64 literals: accepted inputs are not re-printed (float formatting of symbolic values is outside the encoding)"},
